@@ -310,12 +310,39 @@ def run(fx, chk, tier):
 
     # ---------------- R3
     b3 = body_of(ww)
-    rej = []
-    for b in b3.reach:
-        for s in b3.stmts(b):
-            if s["k"] == "assign" and s["rv"]["k"] == "agg" and s["rv"].get("variant") == "TrakNotFound":
-                rej.append(b)
+    # private helpers of the writer that write_sample calls (the track lookup may live in one)
+    helpers3 = []
+    for _b, _t in b3.calls():
+        g_ = fx.fns.get(callee_path(_t["callee"]) or "")
+        if g_ is not None and g_["id"] != tw["id"] and short((g_.get("impl") or {}).get("self_ty", "")).startswith("Mp4Writer") and body_of(g_) is not None and g_ not in helpers3:
+            helpers3.append(g_)
+
+    def _rejections(body_):
+        out_ = []
+        for b in body_.reach:
+            for s in body_.stmts(b):
+                if s["k"] == "assign" and s["rv"]["k"] == "agg" and s["rv"].get("variant") == "TrakNotFound":
+                    out_.append(b)
+        return out_
+    rej = _rejections(b3)
+    rejecting_helpers = [g_ for g_ in helpers3 if _rejections(body_of(g_))]
+    # a call of a rejecting helper is a rejection site of write_sample itself
+    for _b, _t in b3.calls():
+        if any(callee_path(_t["callee"]) == g_["id"] for g_ in rejecting_helpers):
+            rej.append(_b)
     chk.floor("R3", "local rejections in Mp4Writer::write_sample", len(rej), 1)
+    for g_ in rejecting_helpers:
+        gb = body_of(g_)
+        for rb in _rejections(gb):
+            before = {x for x in gb.reach if x == rb or gb.can_reach(x, rb)}
+            dirty = []
+            for x in before:
+                t = gb.term(x)
+                if t["k"] == "call":
+                    p = callee_path(t["callee"]) or ""
+                    if p in iof or t["callee"].get("trait") in IO_TRAITS or p == tw["id"]:
+                        dirty.append(p.split("::")[-1])
+            chk.require(not dirty, "R3", "reject|%s|bb%d" % (g_["name"], _rejections(gb).index(rb)), "no stream / track-writer effect before the rejection", "a rejected write_sample call has already %s" % dirty, site_of(g_))
     for rb in rej:
         before = {x for x in b3.reach if x == rb or b3.can_reach(x, rb)}
         dirty = []
@@ -342,8 +369,10 @@ def run(fx, chk, tier):
         ok = "Vec::len(self.tracks)" in arg and "Add(" in arg and ", 1)" in arg
         ok = ok and ab.op_str(pushc[0][1]["args"][0]) == "self.tracks" and ab.dominates(newc[0][0], pushc[0][0])
     chk.require(ok, "R4", "add_track", "id = len(tracks) + 1, then push", "add_track does not number the new track len(tracks)+1 and append it", site_of(at))
-    gm = [(b, t) for b, t in b3.calls() if (t["callee"].get("path") or "").endswith("get_mut")]
-    ok = len(gm) == 1 and "Sub(track_id as usize, 1)" in b3.deep_str(gm[0][1]["args"][1])
+    gm = [(b3, b, t) for b, t in b3.calls() if (t["callee"].get("path") or "").endswith("get_mut")]
+    for g_ in helpers3:
+        gm += [(body_of(g_), b, t) for b, t in body_of(g_).calls() if (t["callee"].get("path") or "").endswith("get_mut")]
+    ok = len(gm) == 1 and "Sub(track_id as usize, 1)" in gm[0][0].deep_str(gm[0][2]["args"][1])
     chk.require(ok, "R4", "write_sample", "tracks[track_id - 1]", "write_sample does not address track track_id - 1", site_of(ww))
     pushes = [(b, t) for b, t in wbody.calls() if (t["callee"].get("path") or "").endswith("Vec::<T, A>::push") and wbody.op_str(t["args"][0]).endswith("moov.traks")]
     ok = len(pushes) == 1 and flush_calls and wbody.in_loop(pushes[0][0]) and wbody.dominates(flush_calls[0], pushes[0][0])
